@@ -130,7 +130,7 @@ def judge_and_report(res, prop, records, owners, describe, wd, name):
     res.cov["states"] += states
     res.cov["transitions"] += states
     res.cov["traces_validated_against_impl"] += len(records) - len(bad)
-    kf = {k["id"] for k in yv.known_findings(prop)}
+    kf = {k["id"] for k in yv.all_known_findings()}
     for idx, fid in known:
         if fid in kf:
             res.known_finding(fid, KNOWN_TEXT[fid])
